@@ -50,7 +50,12 @@ RULE = ("(supporting tests) corpus from one PRNG: the repository's module sample
         "behind every field inside it; for every pointer field (e_lfanew, section raw pointers, directory RVAs, export tables, resource entries, metadata and "
         "stream offsets, e_phoff / e_shoff / sh_offset / p_offset, fat arch offsets, symoff / stroff / dataoff, LinkInfo offsets, DEX table and string offsets, "
         "ZIP central directory and local header offsets) the bytes between a preceding field or tag and the pointer's target are deleted and the pointer adjusted, "
-        "so that the target structure starts right behind that field. Amplification inputs (N references to ONE large item): DEX methods sharing a 255-parameter "
+        "so that the target structure starts right behind that field; (e) conditional members: the readers mark every value of a field under which the file has "
+        "OTHER fields (LNK: each link flag, LinkInfoHeaderSize >= 0x24, LinkInfoFlags bits, VolumeLabelOffset == 0x14 -> VolumeLabelOffsetUnicode, CNRL flags and "
+        "NetNameOffset > 0x14; PE optional-header magic 0x10b <-> 0x20b; ELF EI_CLASS and EI_DATA; Mach-O 32 <-> 64 magic; DEX endian tag; OLE major version + "
+        "sector shift and mini-stream cutoff; ZIP all-ones zip64 markers and the data-descriptor flag): the condition is written first, the readers run again on "
+        "the result, and the fields found there are swept (new places with all boundary values, the other hot fields with the reduced set), every mutation "
+        "carrying the enabling write(s); synthetic ZIP and zip64 archives are carriers next to the samples. Amplification inputs (N references to ONE large item): DEX methods sharing a 255-parameter "
         "proto over one long string, ELF PT_DYNAMIC headers sharing one table, a deflated ZIP member of 512 MiB of zeros (vbaProject.bin), Mach-O chained imports / "
         "ELF symbols sharing one maximal name, an OLE/CF directory chain through every sector. A failing mutation is kept as a case with the field name, offset, width and value. Non-trivial: distinct (label, output size).")
 
@@ -132,7 +137,7 @@ def run_k(run, tier, seed, drv):
         return {"broken": [("harness:c11", err)], "violations": []}
     if tier == "quick":
         args = ["--seed", seed, "--samples", sdir, "--max-samples", 48, "--trunc", 10, "--fields", 12, "--bomb", "40,80,128,256,512,800,1200", "--names", "200:2000,6000:150000", "--cores", 1600, "--limit-ms", 20000,
-                "--sweep-budget", 200000, "--sweep-per-dir", 16, "--sweep-small", 2100]
+                "--sweep-budget", 240000, "--sweep-per-dir", 16, "--sweep-small", 2100]
     else:
         args = ["--seed", seed, "--samples", sdir, "--max-samples", 400, "--max-size", 4000000, "--trunc", 64, "--fields", 64, "--bomb", "40,80,101,102,128,160,256,320,512,800,1200,4000", "--names", "200:2000,3000:80000,6000:150000,12000:300000", "--cores", 40000, "--limit-ms", 30000,
                 "--sweep-budget", 100000000, "--sweep-per-dir", 64, "--sweep-small", 6000]
